@@ -54,24 +54,29 @@ Record st := mkst {
   log     : list lev;              (* ledger, newest first *)
   bad     : bool;                  (* the history misused the interface (use after delete, …) *)
   oof     : bool;                  (* fuel exhausted (never: LifecycleProofs.fuel_adequate) *)
-  torn    : bool                   (* the collector has been torn down *)
+  torn    : bool;                  (* the collector has been torn down *)
+  spawns  : id -> list id;         (* objects the destructor of an object allocates (new inside a destructor) *)
+  obsq    : list (list id * list id)   (* slot order and marks of the collections that allocations made by
+                                          destructors will trigger (inputs, like `order`/`marks` of the events) *)
 }.
 
 Definition init : st :=
-  mkst [] [] true 0 (fun _ => None) (fun _ => None) [] [] false false false.
+  mkst [] [] true 0 (fun _ => None) (fun _ => None) [] [] false false false (fun _ => []) [].
 
-Definition set_reg r s := mkst r (pend s) (running s) (mitems s) (owned s) (info s) (ids s) (log s) (bad s) (oof s) (torn s).
-Definition set_pend p s := mkst (reg s) p (running s) (mitems s) (owned s) (info s) (ids s) (log s) (bad s) (oof s) (torn s).
-Definition set_running b s := mkst (reg s) (pend s) b (mitems s) (owned s) (info s) (ids s) (log s) (bad s) (oof s) (torn s).
-Definition set_mitems m s := mkst (reg s) (pend s) (running s) m (owned s) (info s) (ids s) (log s) (bad s) (oof s) (torn s).
-Definition set_owned f s := mkst (reg s) (pend s) (running s) (mitems s) f (info s) (ids s) (log s) (bad s) (oof s) (torn s).
-Definition add_log e s := mkst (reg s) (pend s) (running s) (mitems s) (owned s) (info s) (ids s) (e :: log s) (bad s) (oof s) (torn s).
-Definition set_bad s := mkst (reg s) (pend s) (running s) (mitems s) (owned s) (info s) (ids s) (log s) true (oof s) (torn s).
-Definition set_oof s := mkst (reg s) (pend s) (running s) (mitems s) (owned s) (info s) (ids s) (log s) (bad s) true (torn s).
-Definition set_torn s := mkst (reg s) (pend s) (running s) (mitems s) (owned s) (info s) (ids s) (log s) (bad s) (oof s) true.
+Definition set_reg r s := mkst r (pend s) (running s) (mitems s) (owned s) (info s) (ids s) (log s) (bad s) (oof s) (torn s) (spawns s) (obsq s).
+Definition set_pend p s := mkst (reg s) p (running s) (mitems s) (owned s) (info s) (ids s) (log s) (bad s) (oof s) (torn s) (spawns s) (obsq s).
+Definition set_running b s := mkst (reg s) (pend s) b (mitems s) (owned s) (info s) (ids s) (log s) (bad s) (oof s) (torn s) (spawns s) (obsq s).
+Definition set_mitems m s := mkst (reg s) (pend s) (running s) m (owned s) (info s) (ids s) (log s) (bad s) (oof s) (torn s) (spawns s) (obsq s).
+Definition set_owned f s := mkst (reg s) (pend s) (running s) (mitems s) f (info s) (ids s) (log s) (bad s) (oof s) (torn s) (spawns s) (obsq s).
+Definition add_log e s := mkst (reg s) (pend s) (running s) (mitems s) (owned s) (info s) (ids s) (e :: log s) (bad s) (oof s) (torn s) (spawns s) (obsq s).
+Definition set_bad s := mkst (reg s) (pend s) (running s) (mitems s) (owned s) (info s) (ids s) (log s) true (oof s) (torn s) (spawns s) (obsq s).
+Definition set_oof s := mkst (reg s) (pend s) (running s) (mitems s) (owned s) (info s) (ids s) (log s) (bad s) true (torn s) (spawns s) (obsq s).
+Definition set_torn s := mkst (reg s) (pend s) (running s) (mitems s) (owned s) (info s) (ids s) (log s) (bad s) (oof s) true (spawns s) (obsq s).
 Definition add_obj (o : id) (k : kind) (b : bool) s :=
   mkst (reg s) (pend s) (running s) (mitems s) (owned s)
-       (fun x => if x =? o then Some (k, b) else info s x) (o :: ids s) (log s) (bad s) (oof s) (torn s).
+       (fun x => if x =? o then Some (k, b) else info s x) (o :: ids s) (log s) (bad s) (oof s) (torn s) (spawns s) (obsq s).
+Definition set_spawns f s := mkst (reg s) (pend s) (running s) (mitems s) (owned s) (info s) (ids s) (log s) (bad s) (oof s) (torn s) f (obsq s).
+Definition set_obsq q s := mkst (reg s) (pend s) (running s) (mitems s) (owned s) (info s) (ids s) (log s) (bad s) (oof s) (torn s) (spawns s) q.
 
 Definition upd_owned (f : id -> option id) (b : id) (v : option id) : id -> option id :=
   fun x => if x =? b then v else f x.
@@ -101,14 +106,15 @@ Inductive ev :=
 | EDel (k : kind) (o : id)                (* del / del_root / del_raw *)
 | ECollect (order marks : list id)        (* GC_Mark; GC_Sweep *)
 | EStop | EStart
-| ETeardown (order : list id).            (* del_raw(gc): thread exit / Cello_Exit *)
+| ETeardown (order : list id)             (* del_raw(gc): thread exit / Cello_Exit *)
+| ESpawn (o : id) (cs : list id)          (* the destructor of o will allocate the objects cs (new inside a destructor) *)
+| EObs (q : list (list id * list id)).    (* model input only: order/marks of the collections such allocations trigger *)
 
 
 Section Machine.
-  Variables rem_fix sweep_fix : bool.
+  Variables rem_fix sweep_fix defer_fix : bool.
 
-  (* GC_Rem (rem(current(GC), p), i.e. del / del_root), with `fin` = dealloc(destruct(.)).
-     The finaliser-issued variant additionally flags a del of memory already released. *)
+  (* GC_Rem (rem(current(GC), p), i.e. del / del_root), with `fin` = dealloc(destruct(.)). *)
   Definition gc_rem (fin : st -> id -> st) (s : st) (p : id) : st :=
     if negb (running s) then s                       (* if (not gc->running) return; *)
     else
@@ -124,26 +130,7 @@ Section Machine.
              else s                                  (* not registered: nothing happens *)
       in set_mitems (mitems_rule (nitems s1)) s1.    (* GC_Resize_Less; mitems rule *)
 
-  (* dealloc(destruct(o)): destructor (ledger; a Box dels what it owns, then clears its
-     pointer), then the memory is released. *)
-  Fixpoint finalise (fuel : nat) (s : st) (o : id) : st :=
-    match fuel with
-    | O => set_oof s
-    | S f =>
-      let s1 := add_log (LFin o) s in
-      let s2 :=
-        match owned s1 o with
-        | None => s1
-        | Some p =>
-          let s' := gc_rem (finalise f) s1 p in
-          set_owned (upd_owned (owned s') o None) s'
-        end in
-      add_log (LFree o) s2
-    end.
-
   Definition live_pend (s : st) : nat := length (filter (fun x => match x with Some _ => true | None => false end) (pend s)).
-  (* every nested finalisation first removes a registry entry or clears a pending entry *)
-  Definition fuel_of (s : st) : nat := S (nitems s + live_pend s).
 
   (* the entries in the order the sweep meets them: `order` first (restricted to registered
      objects, first occurrences), then whatever `order` does not mention *)
@@ -152,7 +139,7 @@ Section Machine.
     o1 ++ filter (fun x => negb (existsb (Nat.eqb x) o1)) (map fst (reg s)).
 
   (* finaliser loop of GC_Sweep: for (i < freenum) if (freelist[i]) dealloc(destruct(freelist[i])) *)
-  Fixpoint sweep_loop (k i : nat) (s : st) : st :=
+  Fixpoint sweep_loop (fin : st -> id -> st) (k i : nat) (s : st) : st :=
     match k with
     | O => s
     | S k' =>
@@ -161,18 +148,64 @@ Section Machine.
         | None => s
         | Some o =>
           let s0 := if sweep_fix then set_pend (null_pend o (pend s)) s else s in
-          finalise (fuel_of s0) s0 o
+          fin s0 o
         end in
-      sweep_loop k' (S i) s'
+      sweep_loop fin k' (S i) s'
     end.
 
-  (* GC_Sweep with the marks left by the mark phase *)
-  Definition sweep (order marks : list id) (s : st) : st :=
+  (* GC_Sweep with the marks left by the mark phase.  There is ONE pending list: a sweep started
+     from inside another one (pinned GC_Set, D22) overwrites it and leaves it empty. *)
+  Definition sweep (fin : st -> id -> st) (order marks : list id) (s : st) : st :=
     let dead := filter (fun o => negb (is_root s o) && negb (existsb (Nat.eqb o) marks)) (arrange order s) in
     let r' := filter (fun e => negb (existsb (Nat.eqb (fst e)) dead)) (reg s) in
     let s1 := set_mitems (mitems_rule (length r')) (set_pend (map Some dead) (set_reg r' s)) in
-    let s2 := sweep_loop (length dead) 0 s1 in
+    let s2 := sweep_loop fin (length dead) 0 s1 in
     set_pend [] s2.
+
+  (* gc->freelist isnt NULL: a sweep is running (allocations only happen inside one from its
+     finaliser loop, where the pending list is non-empty) *)
+  Definition in_sweep (s : st) : bool := match pend s with [] => false | _ => true end.
+
+  (* new(T) inside a destructor: alloc + GC_Set of a managed plain object c.  The collection it
+     may trigger takes its slot order and marks from the queue `obsq`. *)
+  Definition alloc_child (fin : st -> id -> st) (s : st) (c : id) : st :=
+    match info s c with
+    | Some _ => set_bad s                             (* identity already in use *)
+    | None =>
+      let s1 := add_obj c KManaged false s in
+      if negb (running s1) then s1 else               (* GC_Set: if (not gc->running) return; *)
+      let s2 := set_reg ((c, false) :: reg s1) s1 in
+      if defer_fix && in_sweep s2 then s2             (* repaired: if (gc->freelist isnt NULL) return; *)
+      else if mitems s2 <? nitems s2
+           then let om := hd ([], []) (obsq s2) in
+                sweep fin (fst om) (c :: snd om) (set_obsq (tl (obsq s2)) s2)
+           else s2
+    end.
+
+  (* dealloc(destruct(o)): destructor (ledger; allocations it makes; a Box dels what it owns, then
+     clears its pointer), then the memory is released. *)
+  Fixpoint finalise (fuel : nat) (s : st) (o : id) : st :=
+    match fuel with
+    | O => set_oof s
+    | S f =>
+      let s1 := add_log (LFin o) s in
+      let s1a := fold_left (alloc_child (finalise f)) (spawns s1 o) s1 in
+      let s2 :=
+        match owned s1a o with
+        | None => s1a
+        | Some p =>
+          let s' := gc_rem (finalise f) s1a p in
+          set_owned (upd_owned (owned s') o None) s'
+        end in
+      add_log (LFree o) s2
+    end.
+
+  (* every nested destructor call is on an object whose destructor has not run yet; allocations
+     made by a destructor are paid for by the object that makes them *)
+  Definition phi (s : st) : nat :=
+    list_sum (map (fun x => if fin_started s x then 0 else S (length (spawns s x))) (ids s)).
+  Definition fuel_of (s : st) : nat := S (phi s).
+  Definition fin_top (s : st) (o : id) : st := finalise (fuel_of s) s o.
 
   Definition live (s : st) (o : id) : bool :=
     match info s o with Some _ => negb (fin_started s o) | None => false end.
@@ -199,7 +232,7 @@ Section Machine.
           (* GC_Set *)
           if negb (running s1) then s1 else
           let s2 := set_reg ((o, kind_eqb k KRoot) :: reg s1) s1 in
-          if mitems s2 <? nitems s2 then sweep order (o :: marks) s2 else s2
+          if mitems s2 <? nitems s2 then sweep fin_top order (o :: marks) s2 else s2
         end
       end
     | ELink b None =>
@@ -212,14 +245,17 @@ Section Machine.
     | EDel k o =>
       if live s o && (match kind_of s o with Some k' => kind_eqb k k' | None => false end)
       then match k with
-           | KRaw => finalise (fuel_of s) s o          (* dealloc(destruct(self)) *)
-           | _ => gc_rem (finalise (fuel_of s)) s o    (* rem(current(GC), self) *)
+           | KRaw => fin_top s o              (* dealloc(destruct(self)) *)
+           | _ => gc_rem fin_top s o          (* rem(current(GC), self) *)
            end
       else set_bad s
-    | ECollect order marks => sweep order marks s
+    | ECollect order marks => sweep fin_top order marks s
     | EStop => set_running false s
     | EStart => set_running true s
-    | ETeardown order => set_torn (set_reg [] (sweep order [] s))   (* GC_Del: GC_Sweep; free(entries) *)
+    | ETeardown order => set_torn (set_reg [] (sweep fin_top order [] s))   (* GC_Del: GC_Sweep; free(entries) *)
+    | ESpawn o cs =>
+      if live s o then set_spawns (fun x => if x =? o then cs else spawns s x) s else set_bad s
+    | EObs q => set_obsq q s
     end.
 
   Definition step (s : st) (e : ev) : st :=
@@ -233,18 +269,25 @@ Section Machine.
      alloc_ok  — no managed/root allocation (it would never be registered);
      stop_ok   — in addition no `del` reaches the collector: no del/del_root, and del_raw only
                  of objects that own nothing (a Box's destructor would issue a `del`). *)
+  (* no object that is still to be finalised has a destructor that allocates *)
+  Definition no_spawners (s : st) : bool :=
+    forallb (fun x => match spawns s x with [] => true | _ => fin_started s x end) (ids s).
   Definition alloc_ok (s : st) (e : ev) : bool :=
     running s || match e with
                  | ENew KRaw _ _ _ _ => true
                  | ENew _ _ _ _ _ => false
+                 | EDel KRaw o => match spawns s o with [] => true | _ => false end
+                 | EDel _ _ => true                       (* GC_Rem returns at once *)
+                 | ECollect _ _ | ETeardown _ => no_spawners s
                  | _ => true
                  end.
   Definition stop_ok (s : st) (e : ev) : bool :=
     running s || match e with
                  | ENew KRaw _ _ _ _ => true
                  | ENew _ _ _ _ _ => false
-                 | EDel KRaw o => match owned s o with None => true | Some _ => false end
+                 | EDel KRaw o => match owned s o, spawns s o with None, [] => true | _, _ => false end
                  | EDel _ _ => false
+                 | ECollect _ _ | ETeardown _ => no_spawners s
                  | _ => true
                  end.
   Fixpoint all_from (c : st -> ev -> bool) (s : st) (h : list ev) : bool :=
@@ -328,6 +371,7 @@ Definition sp_step (s : sp) (e : ev) : sp :=
     else bad_
   | ECollect _ _ => s
   | EStop | EStart => s
+  | ESpawn _ _ | EObs _ => s
   | ETeardown _ =>
     (* at the latest now: every managed object *)
     let managed := filter (fun o => match s_info s o with Some (KManaged, _) => negb (s_in (s_must s) o) | _ => false end) (s_ids s) in
